@@ -1,12 +1,11 @@
 // ===== spec/merge_spec.rs : the BTreeMap merge of the operator leaves as a function of the inputs, and its value (hand-written, independent of /repo) =====
-pub open spec fn eps() -> real { 1real / 4503599627370496real }   // f64::EPSILON = 2^-52
 // the merge performed by the code, as a function of the processed prefix: accumulate the coefficient under its id, drop the entry when |sum| <= EPSILON
 pub open spec fn acc(ch: Seq<v1::linear::Term>, n: int) -> Map<u64, real> decreases n {
     if n <= 0 { Map::empty() } else {
         let prev = acc(ch, n - 1);
         let t = ch[n - 1];
         let v = (if prev.contains_key(t.id) { prev[t.id] } else { 0real }) + rv(t.coefficient);
-        if rabs(v) <= eps() { prev.remove(t.id) } else { prev.insert(t.id, v) }
+        if rabs(v) <= eps_real() { prev.remove(t.id) } else { prev.insert(t.id, v) }
     }
 }
 pub open spec fn map_matches(m: Map<u64, F64>, a: Map<u64, real>) -> bool {
@@ -104,4 +103,95 @@ pub proof fn lemma_lin_sum_prefix(a: Seq<v1::linear::Term>, c: Seq<v1::linear::T
     decreases n
 {
     if n > 0 { lemma_lin_sum_prefix(a, c, n - 1, x); }
+}
+// (id, coefficient) pairs as terms
+pub open spec fn pairs_fin(p: Seq<(u64, F64)>) -> bool { forall|i: int| 0 <= i < p.len() ==> fin((#[trigger] p[i]).1) }
+pub open spec fn pairs_terms(p: Seq<(u64, F64)>) -> Seq<v1::linear::Term> { Seq::new(p.len(), |i: int| v1::linear::Term { id: p[i].0, coefficient: p[i].1 }) }
+// strictly increasing ids and coefficients that are not dropped: the merge is the input itself
+pub open spec fn incr_kept(p: Seq<(u64, F64)>) -> bool {
+    (forall|i: int, j: int| 0 <= i < j < p.len() ==> (#[trigger] p[i]).0 < (#[trigger] p[j]).0)
+    && (forall|i: int| 0 <= i < p.len() ==> (#[trigger] p[i]).1@ is Fin && rabs(p[i].1@->Fin_0) > eps_real())
+}
+pub proof fn lemma_acc_incr(p: Seq<(u64, F64)>, n: int)
+    requires incr_kept(p), 0 <= n <= p.len()
+    ensures acc(pairs_terms(p), n).dom().len() == n,
+        forall|i: int| 0 <= i < n ==> acc(pairs_terms(p), n).contains_key((#[trigger] p[i]).0) && acc(pairs_terms(p), n)[p[i].0] == rv(p[i].1),
+        forall|k: u64| #[trigger] acc(pairs_terms(p), n).contains_key(k) ==> exists|i: int| 0 <= i < n && (#[trigger] p[i]).0 == k,
+    decreases n
+{
+    let ch = pairs_terms(p);
+    if n > 0 {
+        lemma_acc_incr(p, n - 1);
+        let prev = acc(ch, n - 1); let t = ch[n - 1];
+        assert(t.id == p[n - 1].0 && t.coefficient == p[n - 1].1);
+        assert(!prev.contains_key(t.id)) by { if prev.contains_key(t.id) { let i = choose|i: int| 0 <= i < n - 1 && (#[trigger] p[i]).0 == t.id; assert(p[i].0 < p[n - 1].0); } }
+        let v = 0real + rv(t.coefficient);
+        assert(rabs(v) > eps_real());
+        assert(acc(ch, n) == prev.insert(t.id, v));
+        assert(prev.insert(t.id, v).dom() =~= prev.dom().insert(t.id));
+        assert forall|i: int| 0 <= i < n implies acc(ch, n).contains_key((#[trigger] p[i]).0) && acc(ch, n)[p[i].0] == rv(p[i].1) by {
+            if i < n - 1 { assert(p[i].0 < p[n - 1].0); }
+        }
+    } else {
+        assert(acc(ch, 0).dom() =~= Set::<u64>::empty());
+    }
+}
+// two strictly increasing listings of the same map are the same listing (used to identify the result of Linear::new with its input)
+pub proof fn lemma_sorted_listing_unique(t: Seq<v1::linear::Term>, p: Seq<(u64, F64)>, a: Map<u64, real>, n: int)
+    requires lists_map(t, n, a), t.len() == n, p.len() == n, incr_kept(p),
+        forall|i: int, j: int| 0 <= i < j < n ==> (#[trigger] t[i]).id < (#[trigger] t[j]).id,
+        forall|i: int| 0 <= i < n ==> a.contains_key((#[trigger] p[i]).0) && a[p[i].0] == rv(p[i].1),
+    ensures forall|i: int| 0 <= i < n ==> (#[trigger] t[i]).id == p[i].0 && t[i].coefficient@ == p[i].1@
+    decreases n
+{
+    if n > 0 {
+        // the largest key of the map is the last element of both listings
+        let kt = t[n - 1].id; let kp = p[n - 1].0;
+        assert(exists|i: int| 0 <= i < n && (#[trigger] t[i]).id == kp) by { lemma_listing_covers(t, n, a, kp); }
+        assert(exists|i: int| 0 <= i < n && (#[trigger] p[i]).0 == kt) by { lemma_pairs_cover(p, a, n, kt); }
+        let i1 = choose|i: int| 0 <= i < n && (#[trigger] t[i]).id == kp;
+        let i2 = choose|i: int| 0 <= i < n && (#[trigger] p[i]).0 == kt;
+        assert(kp <= kt) by { if i1 < n - 1 { assert(t[i1].id < t[n - 1].id); } }
+        assert(kt <= kp) by { if i2 < n - 1 { assert(p[i2].0 < p[n - 1].0); } }
+        let a2 = a.remove(kt);
+        assert(a2.dom() =~= a.dom().remove(kt));
+        assert forall|i: int| 0 <= i < n - 1 implies a2.contains_key((#[trigger] t[i]).id) && t[i].coefficient@ == XR::Fin(a2[t[i].id]) by { assert(t[i].id < t[n - 1].id); }
+        assert forall|i: int| 0 <= i < n - 1 implies a2.contains_key((#[trigger] p[i]).0) && a2[p[i].0] == rv(p[i].1) by { assert(p[i].0 < p[n - 1].0); }
+        lemma_sorted_listing_unique(t.subrange(0, n - 1), p.subrange(0, n - 1), a2, n - 1);
+        assert forall|i: int| 0 <= i < n implies (#[trigger] t[i]).id == p[i].0 && t[i].coefficient@ == p[i].1@ by {
+            if i < n - 1 { assert(t.subrange(0, n - 1)[i] == t[i]); assert(p.subrange(0, n - 1)[i] == p[i]); }
+        }
+    }
+}
+pub proof fn lemma_listing_covers(t: Seq<v1::linear::Term>, n: int, a: Map<u64, real>, k: u64)
+    requires lists_map(t, n, a), a.contains_key(k)
+    ensures exists|i: int| 0 <= i < n && (#[trigger] t[i]).id == k
+    decreases n
+{
+    // n distinct keys of a map with n keys cover the map
+    if n == 0 { assert(a.dom().len() == 0); assert(a.dom() =~= Set::<u64>::empty()); }
+    else if t[n - 1].id != k {
+        let a2 = a.remove(t[n - 1].id);
+        assert(a2.dom() =~= a.dom().remove(t[n - 1].id));
+        assert forall|i: int| 0 <= i < n - 1 implies a2.contains_key((#[trigger] t[i]).id) && t[i].coefficient@ == XR::Fin(a2[t[i].id]) by { assert(t[i].id != t[n - 1].id); }
+        lemma_listing_covers(t, n - 1, a2, k);
+    }
+}
+pub proof fn lemma_pairs_cover(p: Seq<(u64, F64)>, a: Map<u64, real>, n: int, k: u64)
+    requires p.len() == n, a.dom().len() == n, incr_kept(p), forall|i: int| 0 <= i < n ==> a.contains_key((#[trigger] p[i]).0), a.contains_key(k)
+    ensures exists|i: int| 0 <= i < n && (#[trigger] p[i]).0 == k
+    decreases n
+{
+    if n == 0 { assert(a.dom() =~= Set::<u64>::empty()); }
+    else if p[n - 1].0 != k {
+        let a2 = a.remove(p[n - 1].0);
+        assert(a2.dom() =~= a.dom().remove(p[n - 1].0));
+        let p2 = p.subrange(0, n - 1);
+        assert forall|i: int| 0 <= i < n - 1 implies a2.contains_key((#[trigger] p2[i]).0) by { assert(p2[i] == p[i]); assert(p[i].0 < p[n - 1].0); }
+        assert(incr_kept(p2)) by { assert forall|i: int, j: int| 0 <= i < j < p2.len() implies (#[trigger] p2[i]).0 < (#[trigger] p2[j]).0 by { assert(p2[i] == p[i] && p2[j] == p[j]); }
+            assert forall|i: int| 0 <= i < p2.len() implies (#[trigger] p2[i]).1@ is Fin && rabs(p2[i].1@->Fin_0) > eps_real() by { assert(p2[i] == p[i]); } }
+        lemma_pairs_cover(p2, a2, n - 1, k);
+        let i = choose|i: int| 0 <= i < n - 1 && (#[trigger] p2[i]).0 == k;
+        assert(p[i].0 == k);
+    }
 }
